@@ -26,7 +26,7 @@ type World struct {
 	loadSecs  float64
 }
 
-var repoPkgs = []string{"./bint", "./eth", "./wstrings", "./jrpc2", "./dig", "./shovel", "./shovel/config", "./shovel/glf", "./shovel/web", "./wpg", "./wctx", "./cmd/shovel"}
+var repoPkgs = []string{"./bint", "./eth", "./wstrings", "./jrpc2", "./dig", "./shovel", "./shovel/config", "./shovel/glf", "./shovel/web", "./wpg", "./wctx", "./wslog", "./wos", "./cmd/shovel"}
 
 func loadWorld(repo string) (*World, error) {
 	cfg := &packages.Config{
